@@ -258,6 +258,16 @@ class C13(Harness):
                     res[tag] = {"raised": type(e).__name__}
             return res
         ytr = ser(inp["ytr"], s0)
+
+        def _used(tr):
+            """the object whose fit_transform is compared is not fresh: it was fitted on another series before"""
+            try:
+                tr.fit(ser([v + 1 for v in inp["ytr"]], s0 + 1))
+            except Exception as e:  # noqa
+                if type(e).__module__.startswith("vf."):
+                    raise
+            return tr
+
         if inp.get("gapped"):
             # a stretch with a hole after its first time point (e.g. the forecasts of a gapped horizon)
             z = pd.Series(list(inp["z"]), index=pd.Index([s0 + inp["d"] + (i if i == 0 else i + 1) for i in range(len(inp["z"]))]))
@@ -292,7 +302,7 @@ class C13(Harness):
                 # the object is not fresh: it was fitted before on a series that starts one step earlier (another phase)
                 t.fit(ser(list(inp["ytr"]), s0 - 1))
             t.fit(ytr)
-            out["ft"] = pack(t2.fit_transform(ytr))
+            out["ft"] = pack(_used(t2).fit_transform(ytr))
             out["tt"] = pack(t.transform(ytr))
             if inp.get("with_update"):
                 t.update(ser(inp["u"], s0 + inp["e"]), update_params=inp["update_params"])
@@ -307,7 +317,7 @@ class C13(Harness):
             else:
                 t, t2 = DT(), DT()
             t.fit(ytr)
-            out["ft"] = pack(t2.fit_transform(ytr))
+            out["ft"] = pack(_used(t2).fit_transform(ytr))
             out["tt"] = pack(t.transform(ytr))
             if inp.get("with_update"):
                 t.update(ser(inp["u"], s0 + len(inp["ytr"])), update_params=inp.get("update_params", True))
@@ -317,19 +327,19 @@ class C13(Harness):
             t, t2 = BC(method=inp["method"]), BC(method=inp["method"])
             t.fit(ytr)
             out["lambda"] = S(t.lambda_)
-            out["ft"] = pack(t2.fit_transform(ytr))
+            out["ft"] = pack(_used(t2).fit_transform(ytr))
             out["tt"] = pack(t.transform(ytr))
         elif k == "log":
             LT = W.load("sktime.transformations.series.boxcox").LogTransformer
             t, t2 = LT(), LT()
             t.fit(ytr)
-            out["ft"] = pack(t2.fit_transform(ytr))
+            out["ft"] = pack(_used(t2).fit_transform(ytr))
             out["tt"] = pack(t.transform(ytr))
         elif k == "adaptor":
             AD = W.load("sktime.transformations.series.adapt").TabularToSeriesAdaptor
             t, t2 = AD(Sk()), AD(Sk())
             t.fit(ytr)
-            out["ft"] = pack(t2.fit_transform(ytr))
+            out["ft"] = pack(_used(t2).fit_transform(ytr))
             out["tt"] = pack(t.transform(ytr))
             out["fitshape"] = log[0]["shape"]
             # a two-column series (frame) on the same labels: the result keeps the time index as well
@@ -349,7 +359,7 @@ class C13(Harness):
                 t.fit(ytr)
                 t.set_params(passthrough=inp["passthrough"])
             t.fit(ytr)
-            out["ft"] = pack(t2.fit_transform(ytr))
+            out["ft"] = pack(_used(t2).fit_transform(ytr))
             out["tt"] = pack(t.transform(ytr))
             if not inp["passthrough"] and not inp.get("reused"):
                 # one transformer object configured into two wrappers: each wrapper fits its own copy
